@@ -25,7 +25,7 @@ ASSUMPTIONS = [
     "structural rulebook signature covers patterns, flags, logic/diff_logic/apply_logic qualified names, params, nesting",
 ]
 EXHAUSTIVE = {"quick": True, "thorough": True}
-FLOORS = {"quick": {"entries": 168, "rulebooks_loaded": 100, "registry_orders": 100, "cross_process_signatures": 20, "shared_provider_loads": 200, "shared_provider_loads_of_respelled_models": 300, "spellings_that_are_other_hardware": 20, "models_in_two_families_of_different_chains": 40, "answers_of_a_growing_registry": 3000, "interrupted_loads": 60},
+FLOORS = {"quick": {"entries": 168, "rulebooks_loaded": 100, "registry_orders": 100, "cross_process_signatures": 20, "shared_provider_loads": 200, "shared_provider_loads_of_respelled_models": 300, "spellings_that_are_other_hardware": 20, "models_in_two_families_of_different_chains": 40, "answers_of_a_growing_registry": 3000, "interrupted_loads": 60, "rulebooks_loaded_first_in_a_fresh_interpreter": 25},
           "thorough": {"entries": 168, "rulebooks_loaded": 100, "registry_orders": 100, "cross_process_signatures": 20}}
 SOFTS = ["", "Cumulus Linux 4.4", "VRP V200R005"]
 
@@ -34,6 +34,7 @@ def plan(tier, seed):
     n = 8
     specs = [{"mode": "main", "tier": tier, "seed": seed, "shard": k, "nshards": n} for k in range(n)]
     specs.append({"mode": "xproc", "tier": tier, "seed": seed})
+    specs.append({"mode": "firstload", "tier": tier, "seed": seed})
     for j in range(2 if tier == "quick" else 8):
         specs.append({"mode": "shared", "tier": tier, "seed": seed, "perm": j})
     return specs
@@ -379,6 +380,46 @@ def run_shard(spec, acc):
         for mdl in irng.sample(plain, min(len(plain), 60)):
             check_interrupted(mdl, irng.choice([".rul", ".order", ".deploy"]), irng.choice(["_read_escaped_rul", "_render_rul", "open", "mako_render"]), acc,
                               before=irng.choice([None, irng.choice(plain)]))
+        return
+    if spec["mode"] == "firstload":
+        # every vendor's rulebook as the FIRST one an interpreter loads (a run over one kind of device): the logic modules a rulebook names
+        # must import whatever was - or was not - imported before
+        import concurrent.futures as cf
+        frng = random.Random("C18/firstload/%s" % spec["seed"])
+        by_vendor = {}
+        for _, mdl in work + canon + extra:
+            if not mdl:
+                continue
+            from annet.annlib.netdev.views.hardware import HardwareView
+            vnd = HardwareView(mdl, "").vendor
+            if vnd is not None:
+                by_vendor.setdefault(vnd, []).append(mdl)
+        firsts = []
+        for vnd in sorted(by_vendor):
+            ms = sorted(set(by_vendor[vnd]))
+            firsts += [ms[0]] + frng.sample(ms, min(len(ms), 2 if spec["tier"] == "quick" else 6))
+        firsts = sorted(set(firsts))
+
+        def one(mdl):
+            env = dict(os.environ, PYTHONHASHSEED="777")
+            p = subprocess.run([sys.executable, "-c", "import sys,json; from vf import env; env.setup(); from vf.props import c18; c18.child(json.load(sys.stdin))"],
+                               input=json.dumps([mdl]), capture_output=True, text=True, env=env, timeout=900)
+            if p.returncode != 0:
+                return mdl, "ERR child exit %s: %s" % (p.returncode, p.stderr[-300:])
+            return mdl, json.loads(p.stdout.strip().splitlines()[-1]).get(mdl)
+        with cf.ThreadPoolExecutor(max_workers=8) as ex:
+            res = dict(ex.map(one, firsts))
+        for mdl in firsts:
+            s_ = check_model(mdl, "", None, acc, db, deep=False)
+            acc.count("rulebooks_loaded_first_in_a_fresh_interpreter")
+            acc.case([mdl, "firstload"], nontrivial=True)
+            if s_ is None:
+                continue
+            if str(res[mdl]).startswith("ERR"):
+                acc.violation("C18/rulebook-does-not-load-first-in-a-process", "a rulebook that loads after others does not load as the first rulebook of an interpreter",
+                              {"model": mdl, "soft": "", "firstload": True, "error": str(res[mdl])[:300]})
+            elif res[mdl] != R_hash(s_):
+                acc.violation("C18/nondeterministic-rulebook-across-processes", "the same model gives a structurally different rulebook in a fresh process (other hash seed)", {"model": mdl, "soft": "", "firstload": True})
         return
     if spec["mode"] == "xproc":
         # signatures in this process vs a fresh process with another hash seed
